@@ -59,3 +59,10 @@ Definition run_speed (fixed : bool) (speed_hi speed duplex : Z) : jv :=
   | None => JC "UB" [JC "shift" []]
   | Some v => JL [jv_outcome JZ (duplex_map duplex); JZ v]
   end.
+
+Definition jv_nrow (r : nrow) : jv :=
+  JL [JB (n_name r); JZ (n_fam r); JB (n_addr r); jopt JB (n_mask r); jopt JB (n_bcast r); jopt JB (n_ptp r)].
+(* fed interface list: model answer of psutil.net_if_addrs() (rows in psutil's order) and the demanded rows *)
+Definition run_ifaddrs (l : list ifa) : jv :=
+  JL [ jv_outcome (fun rows => JL (map jv_nrow (py_net_if_addrs rows))) (c_net_if_addrs (repeat 255 NI_MAXHOST) l);
+       (if forallb wf_ifa l then JC "Val" [JL (map jv_nrow (map pad_row (spec_if_rows l)))] else jnone) ].
